@@ -8,6 +8,7 @@ import JediVerif.Driver.Parse
 import JediVerif.Spec.Pairing
 import JediVerif.Spec.Rand
 import JediVerif.Impl.ConstsFq
+import JediVerif.Gen.AsmX86
 
 namespace Jedi.Driver
 
@@ -137,30 +138,63 @@ def judgeBigint (cfg : Cfg) (op : String) (out : List String) : P Unit := do
       expectToks op [bytesToHex (toBytesBE (bits / 8) a), hx a] out
     | _ => throw s!"unknown op {op}"
 
-/-- direct calls of the assembly routines: same contracts as the portable code (384-bit, modulus q). -/
+/-- the instruction-level model (`Impl/X86.lean` running the program regenerated from the assembly
+source, `Gen/AsmX86.lean`) on the operands of an `asm …` line, same alias pattern: (rax, result) -/
+def asmModel (routine : String) (resWords : Nat) (inputs consts : List (Nat × Nat)) (scalars : List X86.Word)
+    (alias : String) : Except String (X86.Word × Nat) :=
+  let sym := "embedded_pairing_core_arch_x86_64_" ++ routine
+  match Gen.AsmX86.lookup sym with
+  | none => throw s!"model: no generated program for {sym}"
+  | some prog => X86.callRoutine prog resWords inputs consts scalars alias
+
+/-- direct calls of the assembly routines: same contracts as the portable code (384-bit, modulus q);
+and the interpreter running the generated program must reproduce the real routine's output exactly
+(for all operands, also those outside the contract). -/
 def judgeAsm (out : List String) : P Unit := do
   let fn ← next
   let m := 2 ^ 384
+  let pq := (Gen.Consts.fq_modulus_var, 6)
+  let tie (what : String) (toks : List String) : P Unit :=
+    expectToks s!"asm {what}: instruction-level model of the assembly vs the real routine" toks out
   match fn with
-  | "add" => let a ← nextHex; let b ← nextHex; let _ ← next
+  | "add" => let a ← nextHex; let b ← nextHex; let al ← next
              expectToks "asm add" [toString ((a + b) / m), toHex 96 ((a + b) % m)] out
-  | "sub" => let a ← nextHex; let b ← nextHex; let _ ← next
+             let (rax, v) ← asmModel "bigint_384_add" 6 [(a, 6), (b, 6)] [] [] al
+             tie fn [boolTok (rax.toNat % 256 != 0), toHex 96 v]
+  | "sub" => let a ← nextHex; let b ← nextHex; let al ← next
              expectToks "asm sub" [if a < b then "1" else "0", toHex 96 ((a + m - b) % m)] out
-  | "dbl" => let a ← nextHex; let _ ← next
+             let (rax, v) ← asmModel "bigint_384_subtract" 6 [(a, 6), (b, 6)] [] [] al
+             tie fn [boolTok (rax.toNat % 256 != 0), toHex 96 v]
+  | "dbl" => let a ← nextHex; let al ← next
              expectToks "asm dbl" [toString ((2 * a) / m), toHex 96 ((2 * a) % m)] out
-  | "fpadd" => let a ← nextHex; let b ← nextHex; let _ ← next
+             let (rax, v) ← asmModel "bigint_384_multiply2" 6 [(a, 6)] [] [] al
+             tie fn [toString rax.toInt, toHex 96 v]
+  | "fpadd" => let a ← nextHex; let b ← nextHex; let al ← next
                if a < q && b < q then expectToks "asm fpadd" [toHex 96 ((a + b) % q)] out
-  | "fpsub" => let a ← nextHex; let b ← nextHex; let _ ← next
+               let (_, v) ← asmModel "fpbase_384_add" 6 [(a, 6), (b, 6)] [pq] [] al
+               tie fn [toHex 96 v]
+  | "fpsub" => let a ← nextHex; let b ← nextHex; let al ← next
                if a < q && b < q then expectToks "asm fpsub" [toHex 96 ((a + q - b) % q)] out
-  | "fpdbl" => let a ← nextHex; let _ ← next
+               let (_, v) ← asmModel "fpbase_384_subtract" 6 [(a, 6), (b, 6)] [pq] [] al
+               tie fn [toHex 96 v]
+  | "fpdbl" => let a ← nextHex; let al ← next
                if a < q then expectToks "asm fpdbl" [toHex 96 ((2 * a) % q)] out
-  | "mul" => let _ ← next; let a ← nextHex; let b ← nextHex; expectToks "asm mul" [toHex 192 (a * b)] out
-  | "sqr" => let _ ← next; let a ← nextHex; expectToks "asm sqr" [toHex 192 (a * a)] out
+               let (_, v) ← asmModel "fpbase_384_multiply2" 6 [(a, 6)] [pq] [] al
+               tie fn [toHex 96 v]
+  | "mul" => let fam ← next; let a ← nextHex; let b ← nextHex; expectToks "asm mul" [toHex 192 (a * b)] out
+             let (_, v) ← asmModel (if fam == "bmi2" then "bmi2_adx_bigint_768_multiply" else "bigint_768_multiply") 12 [(a, 6), (b, 6)] [] [] "n"
+             tie s!"{fn} {fam}" [toHex 192 v]
+  | "sqr" => let fam ← next; let a ← nextHex; expectToks "asm sqr" [toHex 192 (a * a)] out
+             let (_, v) ← asmModel (if fam == "bmi2" then "bmi2_adx_bigint_768_square" else "bigint_768_square") 12 [(a, 6)] [] [] "n"
+             tie s!"{fn} {fam}" [toHex 192 v]
   | "mred" =>
-    let _ ← next; let t ← nextHex
+    let fam ← next; let t ← nextHex
     if t < q * m then
       let rinv : Fq := finInv (Fin.ofNat q m)
       expectToks "asm mred" [toHex 96 ((Fin.ofNat q t) * rinv).val] out
+    let (_, v) ← asmModel (if fam == "bmi2" then "bmi2_adx_fpbase_384_montgomery_reduce" else "fpbase_384_montgomery_reduce") 6 [(t, 12)] [pq]
+      [BitVec.ofNat 64 Gen.Consts.fq_inv_var] "n"
+    tie s!"{fn} {fam}" [toHex 96 v]
   | _ => throw s!"unknown asm routine {fn}"
 
 /-! ### prime fields.  One generic judge, instantiated for Fq and Fr. -/
